@@ -34,7 +34,10 @@ SPEC = dict(
         dict(family="domain", n=(900, 100000), mc=dict(max_calls=8, after_end=1), invariants=["StackDiscipline"]),
     ],
     cs=[dict(family="faults", n=(120, 2000), paths=(4, 6), calls=45, layouts=True,
-             label="YarnTrace: random walks of bigger faulty programs")],
+             label="YarnTrace: random walks of bigger faulty programs"),
+        # the host API in any order: Snapshot / RestoreAt (also of snapshots written by hand: a node name and nothing else)
+        dict(family="faults", n=(40, 400), paths=(3, 5), calls=45, mode="snap",
+             label="YarnTrace: faulty programs with Snapshot / RestoreAt interleaved (three runners, hand-written snapshots)")],
     nontrivial=lambda c: True,
     rule="valid scripts with faults sprinkled over every statement kind and nesting position: ill-typed operations, unknown variables / nodes / "
          "functions / commands, wrong argument counts and types, failing host functions and commands, type changes, compound assignment to an "
